@@ -152,6 +152,7 @@ def twin_oracle(ctx):
 
 def run(ctx):
     C.ensure_impl_path()
+    stft.regenerate(ctx)
     pr = C.proof_step(ctx)
     rng = ctx.rng
     cases = []
